@@ -34,6 +34,10 @@ func GenCase(t *rapid.T, bias Bias, stratum int) Case {
 		WriterTopic:    rapid.Bool().Draw(t, "writerTopic"),
 		WriteTimeoutMs: 5000,
 	}
+	if rapid.IntRange(0, 11).Draw(t, "defaultAttempts") == 0 {
+		// MaxAttempts left unset, or set to something that is not a count: the default of 10 applies
+		c.MaxAttempts = rapid.SampledFrom([]int{0, -1}).Draw(t, "unsetAttempts")
+	}
 	nTopics := 1
 	if !c.WriterTopic && rapid.Bool().Draw(t, "twoTopics") {
 		nTopics = 2
